@@ -331,6 +331,12 @@ func genCase(t *rapid.T, path string) (Case, string) {
 	case 1:
 		text = "[)>\x1e06\x1d" + text + "\x1e\x04"
 		cl += ";macro06"
+	case 2:
+		text = rapid.SampledFrom([]string{"[)>\x1e05\x1d", "[)>\x1e06\x1d"}).Draw(t, "hdr") + text
+		cl += ";macro_header_without_trailer"
+	case 3:
+		text += "\x1e\x04"
+		cl += ";macro_trailer_without_header"
 	}
 	c.Text = text
 	c.Shape = rapid.SampledFrom([]int{0, 0, 0, 1, 2}).Draw(t, "shape")
@@ -652,6 +658,51 @@ func TestCheck(t *testing.T) {
 			}
 			c.NoteBulk("mode_tails_exhaustive", "", n, nt, func() any { return Case{Text: "qszglpuxge1A1A\u00d0", Path: "codewords"} })
 			c.SetExhaustive("mode_tails_exhaustive", true)
+		}
+
+		// macro envelopes and everything that nearly is one: header without trailer, trailer without
+		// header, damaged headers, doubled parts, empty bodies
+		{
+			heads := []string{"", "[)>\x1e05\x1d", "[)>\x1e06\x1d", "[)>\x1e07\x1d", "[)>\x1e05", "[)>\x1e5\x1d", "[)>\x1d05\x1e", "[)>\x1e05\x1e",
+				"x[)>\x1e05\x1d", "[)>\x1e05\x1d[)>\x1e06\x1d", "[)>\x1e06\x1d[)>\x1e06\x1d", "[)\x1e06\x1d", "[)>\x1e16\x1d"}
+			tails := []string{"", "\x1e\x04", "\x1e", "\x04", "\x1e\x04x", "\x04\x1e", "\x1e\x04\x1e\x04", "\x1d\x04", "\x1e\x1e\x04"}
+			bodies := []string{"", "A", "ABC123", "12", "1234567", "abcdefgh", "AB>CD>EF>GH>", "A.B-C/D:", "\u00e9\u00e8\u00ea", "ABC\u00e9", "\x1e", "\x04", "ABCDEFGHIJKLMNOPQRSTUVWXYZ0123456789ABCDEFGHIJKLMNOPQRSTUVWXYZ"}
+			idx := 0
+		macro:
+			for _, hd := range heads {
+				for _, tl := range tails {
+					for _, bd := range bodies {
+						for _, path := range []string{"codewords", "image"} {
+							idx++
+							if !c.Mine(idx) {
+								continue
+							}
+							text := hd + bd + tl
+							if text == "" {
+								continue
+							}
+							cs := Case{Text: text, Path: path}
+							cl := "complete_envelope"
+							switch {
+							case hd == "" && tl == "":
+								cl = "no_envelope"
+							case (hd == "[)>\x1e05\x1d" || hd == "[)>\x1e06\x1d") && tl == "\x1e\x04":
+							case hd == "[)>\x1e05\x1d" || hd == "[)>\x1e06\x1d":
+								cl = "header_without_matching_trailer"
+							case tl == "\x1e\x04":
+								cl = "trailer_without_header"
+							default:
+								cl = "near_miss"
+							}
+							c.Note("macro_envelope_variants", cl, cl != "no_envelope", hx.HashS("macro", text, path), func() any { return cs })
+							if !c.Enum("macro_envelope_variants", "dm_roundtrip", cs, nil) {
+								break macro
+							}
+						}
+					}
+				}
+			}
+			c.SetExhaustive("macro_envelope_variants", true)
 		}
 
 		// every run length of every character class (alone, followed and preceded by a foreign character):
